@@ -36,6 +36,33 @@ fn emit_iter(sink: &mut Sink, v: &IppValue, n: &mut u64, depth: usize) {
     };
     sink.emit(&json!({"ev": "iter", "v": ipp_json(v), "morder": morder, "seq": seq, "fused": fused}), &json!({"value": format!("{:?}", v).chars().take(1500).collect::<String>()}));
     *n += 1;
+    // the same traversal through the other methods of the iterator: some next() calls, then skip / step_by
+    // (both built on nth), count and last
+    let len = seq.len();
+    let variants: &[(usize, usize, usize)] = if len >= 2 { &[(1, 0, 2), (1, 1, 1), (0, 1, 2), (2, 0, 3), (0, 0, 1)] } else { &[(0, 0, 1), (1, 0, 1)] };
+    for &(a, b, st) in variants.iter().take(if depth == 0 { 5 } else { 2 }) {
+        let mut sx = vec![];
+        let mut it = v.into_iter();
+        for _ in 0..a {
+            if let Some(x) = it.next() {
+                sx.push(ipp_json(x));
+            }
+        }
+        sx.extend(it.skip(b).step_by(st).take(100_000).map(ipp_json));
+        let mut it2 = v.into_iter();
+        for _ in 0..a {
+            it2.next();
+        }
+        let count = it2.take(1_000_000).count();
+        let mut it3 = v.into_iter();
+        for _ in 0..a {
+            it3.next();
+        }
+        let last: Vec<J> = it3.take(1_000_000).last().map(ipp_json).into_iter().collect();
+        sink.emit(&json!({"ev": "iterx", "v": ipp_json(v), "morder": morder, "first": a, "skip": b, "step": st, "seq": sx, "count": count, "last": last}),
+            &json!({"value": format!("{:?}", v).chars().take(1500).collect::<String>(), "how": format!("{} x next(), then skip({}).step_by({}); count(); last()", a, b, st)}));
+        *n += 1;
+    }
     if depth < 4 {
         match v {
             IppValue::Array(vs) => vs.iter().for_each(|e| emit_iter(sink, e, n, depth + 1)),
